@@ -392,11 +392,12 @@ def behavioural_probes(ctx, world, decl, cname, case):
     if "names" in attrs:
         base = cls(**{k: world.build(r) for k, r in kw.items()})
         object.__getattribute__(base, "__dict__")["names"] = ["P", "Q"]
+        Z = cg.model_prepare(decl.item_preparer_of(cname, "names"), "Z")  # (the class's item preparer applies to the new element)
         checks = [
             ("_by_index=True", lambda: base.without_name(0, _by_index=True).names, ["Q"]),
             ("_by_index=False", lambda: base.without_name(0, _by_index=False).names, ValueError),
-            ("_insert=True", lambda: base.with_name("Z", _index=0, _insert=True).names, ["Z", "P", "Q"]),
-            ("_insert=False", lambda: base.with_name("Z", _index=0, _insert=False).names, ["Z", "Q"]),
+            ("_insert=True", lambda: base.with_name("Z", _index=0, _insert=True).names, [Z, "P", "Q"]),
+            ("_insert=False", lambda: base.with_name("Z", _index=0, _insert=False).names, [Z, "Q"]),
             ("_if=False", lambda: base.with_name("Z", _if=False) is base, True),
             ("_inplace=False", lambda: base.with_name("Z") is base, False),
         ]
